@@ -307,7 +307,9 @@ def eval_monad_range(a, backend):
                 sx = str(x)
                 if sx not in s:
                     s.add(sx)
-                    arr.append(x)
+                    # members written differently may still match (1 and 1.0, [1 2] and [1.0 2.0])
+                    if dtype_kind != 'O' or not any(backend.kg_equal(x, y) for y in arr):
+                        arr.append(x)
             return backend.kg_asarray(arr)
     return a
 
